@@ -56,34 +56,54 @@ public:
     int task; std::vector<uint64_t>* log;
 };
 
-struct Recipe { uint64_t seed; int integ; double accuracy, dt; int nsteps; bool stepper, mesh, cons; };
+struct Recipe { uint64_t seed; int integ; double accuracy, dt; int nsteps; bool stepper, mesh, cons; int contact; };   // contact: 0 compliant (tracker subsystem), 1 GeneralContactSubsystem + HuntCrossleyForce (convex pairs)
 
 struct SimTask {
     int id; Recipe rc;
-    MultibodySystem sys; SimbodyMatterSubsystem matter; GeneralForceSubsystem forces; ContactTrackerSubsystem tracker; CompliantContactSubsystem contact; Force::Gravity gravity;
+    MultibodySystem sys; SimbodyMatterSubsystem matter; GeneralForceSubsystem forces; ContactTrackerSubsystem tracker; CompliantContactSubsystem contact; GeneralContactSubsystem gcs; Force::Gravity gravity;
     std::unique_ptr<Integrator> integ; std::unique_ptr<TimeStepper> ts; std::vector<uint64_t> replog;
     int done = 0; std::vector<uint64_t> digest; HookForce* hook = nullptr;
-    SimTask(int id, const Recipe& rc) : id(id), rc(rc), matter(sys), forces(sys), tracker(sys), contact(sys, tracker), gravity(forces, matter, -YAxis, 9.8) { build(); }
+    SimTask(int id, const Recipe& rc) : id(id), rc(rc), matter(sys), forces(sys), tracker(sys), contact(sys, tracker), gcs(sys), gravity(forces, matter, -YAxis, 9.8) { build(); }
     void build() {
         Rng r(rc.seed);
         forces.setNumberOfThreads(1);                       // the statement is about single-threaded force evaluation
         contact.setTransitionVelocity(0.05);
         ContactMaterial mat(1e5, 0.3, 0.6, 0.5, 0.1);
-        matter.Ground().updBody().addContactSurface(Transform(Rotation(-Pi / 2, ZAxis), Vec3(0)), ContactSurface(ContactGeometry::HalfSpace(), mat));
+        const bool general = rc.contact == 1; ContactSetIndex set; std::vector<int> surfaces;
+        if (general) { set = gcs.createContactSet(); gcs.addBody(set, matter.updGround(), ContactGeometry::Ellipsoid(Vec3(r.uni(1.5, 3), 0.5, r.uni(1.5, 3))), Transform(Vec3(0, -0.5, 0))); }
+        else matter.Ground().updBody().addContactSurface(Transform(Rotation(-Pi / 2, ZAxis), Vec3(0)), ContactSurface(ContactGeometry::HalfSpace(), mat));
         std::vector<MobilizedBody> mob; mob.push_back(matter.updGround());
         int nb = r.range(1, 4);
         for (int b = 0; b < nb; ++b) {
             double rad = r.uni(0.1, 0.3);
             Body::Rigid body(MassProperties(r.uni(0.5, 2), Vec3(0), Inertia(r.uni(0.05, 0.2), r.uni(0.05, 0.2), r.uni(0.05, 0.2))));
-            if (rc.mesh && b == 0) { PolygonalMesh pm = PolygonalMesh::createSphereMesh(rad, 1); ContactGeometry::TriangleMesh tm(pm); body.addContactSurface(Transform(), ContactSurface(tm, mat, 0.05)); }
-            else body.addContactSurface(Transform(), ContactSurface(ContactGeometry::Sphere(rad), mat));
-            int par = (int)r.below(mob.size()); int t = (int)r.below(4);
+            if (!general) {
+                if (rc.mesh && b == 0) { PolygonalMesh pm = PolygonalMesh::createSphereMesh(rad, 1); ContactGeometry::TriangleMesh tm(pm); body.addContactSurface(Transform(), ContactSurface(tm, mat, 0.05)); }
+                else if (r.chance(0.3)) body.addContactSurface(Transform(), ContactSurface(ContactGeometry::Ellipsoid(Vec3(rad, 0.7 * rad, 1.2 * rad)), mat));
+                else body.addContactSurface(Transform(), ContactSurface(ContactGeometry::Sphere(rad), mat));
+            }
+            int par = (int)r.below(mob.size()); int t = (int)r.below(12);
             Transform Xp(Vec3(r.uni(-0.3, 0.3), par == 0 ? rad + r.uni(-0.02, 0.3) : r.uni(0.2, 0.5), r.uni(-0.3, 0.3)));
-            if (par == 0 || t == 0) mob.push_back(MobilizedBody::Free(mob[par], Xp, body, Transform()));
-            else if (t == 1) mob.push_back(MobilizedBody::Ball(mob[par], Xp, body, Transform(Vec3(0, -0.4, 0))));
-            else if (t == 2) mob.push_back(MobilizedBody::Pin(mob[par], Xp, body, Transform(Vec3(0, -0.4, 0))));
-            else mob.push_back(MobilizedBody::Slider(mob[par], Xp, body, Transform(Vec3(0, -0.3, 0))));
+            const Transform Xb(Vec3(0, -0.35, 0));
+            if (par == 0) {     // a root body that can fall onto the ground surface
+                if (t < 6) mob.push_back(MobilizedBody::Free(mob[par], Xp, body, Transform()));
+                else if (t < 8) mob.push_back(MobilizedBody::FreeLine(mob[par], Xp, body, Transform()));
+                else if (t < 10) mob.push_back(MobilizedBody::Bushing(mob[par], Xp, body, Transform()));
+                else mob.push_back(MobilizedBody::Translation(mob[par], Xp, body, Transform()));
+            } else switch (t) {
+                case 0: case 1: mob.push_back(MobilizedBody::Ball(mob[par], Xp, body, Xb)); break;
+                case 2: case 3: mob.push_back(MobilizedBody::Pin(mob[par], Xp, body, Xb)); break;
+                case 4: mob.push_back(MobilizedBody::Slider(mob[par], Xp, body, Xb)); break;
+                case 5: mob.push_back(MobilizedBody::Universal(mob[par], Xp, body, Xb)); break;
+                case 6: mob.push_back(MobilizedBody::Gimbal(mob[par], Xp, body, Xb)); break;
+                case 7: case 8: mob.push_back(MobilizedBody::LineOrientation(mob[par], Xp, body, Xb)); break;
+                case 9: mob.push_back(MobilizedBody::Cylinder(mob[par], Xp, body, Xb)); break;
+                case 10: mob.push_back(MobilizedBody::Ellipsoid(mob[par], Xp, body, Xb, Vec3(0.2, 0.3, 0.25))); break;
+                default: mob.push_back(MobilizedBody::Free(mob[par], Xp, body, Xb)); break;
+            }
+            if (general) { if (r.chance(0.6)) gcs.addBody(set, mob.back(), ContactGeometry::Ellipsoid(Vec3(rad, 0.7 * rad, 1.3 * rad)), Transform()); else gcs.addBody(set, mob.back(), ContactGeometry::Sphere(rad), Transform()); }
         }
+        if (general) { HuntCrossleyForce hc(forces, gcs, set); for (int i = 0; i <= nb; ++i) hc.setBodyParameters(ContactSurfaceIndex(i), 1e5, 0.5, 0.6, 0.4, 0.1); hc.setTransitionVelocity(0.05); }
         if (rc.cons && nb >= 2) {   // a rod whose length is the distance in the default configuration, so the model assembles
             sys.realizeTopology(); State s0 = sys.getDefaultState(); sys.realize(s0, Stage::Position);
             Real d = (mob[1].findStationLocationInGround(s0, Vec3(0)) - mob[2].findStationLocationInGround(s0, Vec3(0.1, 0, 0))).norm();
@@ -93,7 +113,7 @@ struct SimTask {
         hook = new HookForce(id, rc.seed ^ 0x77, nb); Force::Custom(forces, hook);
         if (rc.stepper) { sys.addEventHandler(new HookHandler(id, rc.dt * r.pick(std::vector<double>{1.0, 1.5, 2.5}))); sys.addEventReporter(new HookReporter(id, rc.dt * r.pick(std::vector<double>{0.5, 1.0, 3.0}), &replog)); }
         sys.realizeTopology(); State s = sys.getDefaultState();
-        if (r.chance(0.3)) { matter.setUseEulerAngles(s, true); }
+        if (r.chance(0.4)) { matter.setUseEulerAngles(s, true); }
         sys.realizeModel(s);
         Vector u(s.getNU()); for (int i = 0; i < u.size(); ++i) u[i] = r.uni(-1, 1); s.updU() = u;
         integ.reset(hi::makeIntegrator(rc.integ, sys, 0.002)); integ->setAccuracy(rc.accuracy);
@@ -130,7 +150,7 @@ public:
 };
 static uint64_t noise(int kind, uint64_t seed) {
     vf::Hash h; Rng r(seed);
-    switch (kind % 8) {
+    switch (kind % 9) {
     case 0: { Random::Gaussian g(0, 1); g.setSeed((int)(seed % 100000)); for (int i = 0; i < 50; ++i) h.mixd(g.getValue()); Random::Uniform u(0, 1); u.setSeed((int)(seed % 7777)); for (int i = 0; i < 20; ++i) h.mixd(u.getValue()); break; }
     case 1: { int n = r.range(2, 7); Matrix A(n, n); Vector b(n), x; for (int i = 0; i < n; ++i) { b[i] = r.uni(-1, 1); for (int j = 0; j < n; ++j) A(i, j) = r.uni(-1, 1) + (i == j ? 3 : 0); }
               FactorLU lu(A); lu.solve(b, x); for (int i = 0; i < n; ++i) h.mixd(x[i]); FactorQTZ qtz(A); qtz.solve(b, x); for (int i = 0; i < n; ++i) h.mixd(x[i]);
@@ -145,6 +165,15 @@ static uint64_t noise(int kind, uint64_t seed) {
               State s = sys.realizeTopology(); for (int i = 0; i < s.getNQ(); ++i) s.updQ()[i] = r.uni(-1, 1); State c(s); sys.realize(c, Stage::Acceleration); for (int i = 0; i < c.getNU(); ++i) h.mixd(c.getUDot()[i]); break; }
     case 5: { int n = r.range(5, 12); Vector x(n), y(n); for (int i = 0; i < n; ++i) { x[i] = i + r.uni(0, 0.5); y[i] = r.uni(-1, 1); } Spline sp = SplineFitter<Real>::fitForSmoothingParameter(3, x, y, 0.1).getSpline(); for (int i = 0; i < 8; ++i) { Vector a(1, r.uni(0, n - 1.0)); h.mixd(sp.calcValue(a)); } break; }
     case 6: { int n = r.range(2, 4); QuadSys qs(n, seed); Optimizer opt(qs, CMAES); opt.setMaxIterations(30); opt.setAdvancedIntOption("popsize", 8); opt.setAdvancedIntOption("seed", (int)(seed % 1000) + 1); opt.setAdvancedRealOption("init_stepsize", 0.5); opt.setAdvancedRealOption("maxTimeFractionForEigendecomposition", 1.0); /* documented as required for reproducible results: otherwise CMA-ES consults the CPU clock */ Vector x(n); for (int i = 0; i < n; ++i) x[i] = r.uni(-2, 2); Real f = opt.optimize(x); h.mixd(f); for (int i = 0; i < n; ++i) h.mixd(x[i]); break; }
+    case 8: { MultibodySystem sys; SimbodyMatterSubsystem matter(sys); GeneralForceSubsystem forces(sys); GeneralContactSubsystem gcs(sys); forces.setNumberOfThreads(1);
+              ContactSetIndex set = gcs.createContactSet(); Body::Rigid body(MassProperties(1, Vec3(0), Inertia(1)));
+              MobilizedBody::Free mover(matter.updGround(), Transform(), body, Transform());
+              gcs.addBody(set, matter.updGround(), ContactGeometry::Ellipsoid(Vec3(r.uni(0.8, 1.5), 0.5, r.uni(0.8, 1.5))), Transform()); gcs.addBody(set, mover, ContactGeometry::Ellipsoid(Vec3(r.uni(0.2, 0.5), r.uni(0.2, 0.5), r.uni(0.2, 0.5))), Transform());
+              HuntCrossleyForce hc(forces, gcs, set); hc.setBodyParameters(ContactSurfaceIndex(0), 1e5, 0.5, 0.6, 0.4, 0.1); hc.setBodyParameters(ContactSurfaceIndex(1), 1e5, 0.5, 0.6, 0.4, 0.1);
+              State s = sys.realizeTopology();
+              for (int k = 0; k < 3; ++k) { mover.setQToFitTransform(s, Transform(Rotation(r.uni(-1, 1), UnitVec3(Vec3(0.2, 1, 0.3))), Vec3(r.uni(-0.3, 0.3), r.uni(0.6, 0.9), r.uni(-0.3, 0.3)))); sys.realize(s, Stage::Dynamics);
+                  const Array_<Contact>& cs = gcs.getContacts(s, set); h.mix(cs.size()); const Vector_<SpatialVec>& F = sys.getRigidBodyForces(s, Stage::Dynamics); for (int i = 0; i < 3; ++i) { h.mixd(F[1][0][i]); h.mixd(F[1][1][i]); } }
+              break; }
     default: { Vec3 half(r.uni(0.3, 1), r.uni(0.3, 1), r.uni(0.3, 1)); ContactGeometry::Ellipsoid el(half); for (int i = 0; i < 6; ++i) { bool inside; UnitVec3 nrm; Vec3 p = el.findNearestPoint(Vec3(r.uni(-2, 2), r.uni(-2, 2), r.uni(-2, 2)), inside, nrm); for (int k = 0; k < 3; ++k) h.mixd(p[k]); }
                Vector_<std::complex<double>> roots(3); Vector coef(4); for (int i = 0; i < 4; ++i) coef[i] = r.uni(0.5, 2) * (i % 2 ? -1 : 1); PolynomialRootFinder::findRoots(coef, roots); for (int i = 0; i < 3; ++i) { h.mixd(roots[i].real()); h.mixd(roots[i].imag()); } break; }
     }
@@ -177,8 +206,8 @@ struct Sched {
         }
     }
     void checkNoise(int kind, uint64_t sd, uint64_t got, const std::string& where) {
-        auto it = noiseRef.find({kind % 8, sd}); if (it == noiseRef.end()) { noiseRef[{kind % 8, sd}] = got; return; }
-        if (it->second != got) res->fail("noise-result-differs", "noise kind=" + std::to_string(kind % 8), "library call kind " + std::to_string(kind % 8) + " seed " + std::to_string(sd) + " gave a different result when run " + where + " than when run alone");
+        auto it = noiseRef.find({kind % 9, sd}); if (it == noiseRef.end()) { noiseRef[{kind % 9, sd}] = got; return; }
+        if (it->second != got) res->fail("noise-result-differs", "noise kind=" + std::to_string(kind % 9), "library call kind " + std::to_string(kind % 9) + " seed " + std::to_string(sd) + " gave a different result when run " + where + " than when run alone");
     }
 };
 static void hookCallback(int task, int site) { if (g_sched) g_sched->callback(task, site); }
@@ -192,15 +221,21 @@ struct C46 : vf::Engine {
         int nt = r.range(2, tier == "thorough" ? 5 : 4);
         for (int k = 0; k < nt; ++k) { Op o = vf::mkop("task"); bool dup = k > 0 && r.chance(0.15);
             if (dup) { o = p.ops[r.below(k)]; } else { int integ = (int)r.below(hi::NINTEG); bool low = (integ == 0 || integ == 1 || integ == 5 || integ == 7);
-                o.set("seed", (long)(r.next() >> 16)).set("integ", integ).setr("acc", std::pow(10.0, -r.range(2, low ? 3 : 5))).setr("dt", r.pick(std::vector<double>{0.004, 0.01, 0.02, 0.04})).set("steps", r.range(3, 10)).set("stepper", r.chance(0.4) ? 1 : 0).set("mesh", r.chance(0.25) ? 1 : 0).set("cons", r.chance(0.3) ? 1 : 0); }
+                o.set("seed", (long)(r.next() >> 16)).set("integ", integ).setr("acc", std::pow(10.0, -r.range(2, low ? 3 : 5))).setr("dt", r.pick(std::vector<double>{0.004, 0.01, 0.02, 0.04})).set("steps", r.range(3, 10)).set("stepper", r.chance(0.4) ? 1 : 0).set("mesh", r.chance(0.25) ? 1 : 0).set("cons", r.chance(0.3) ? 1 : 0).set("contact", r.chance(0.35) ? 1 : 0); }
             p.ops.push_back(o); }
+        // fresh-process comparison (a quarter of the runs): the same plan is executed in two freshly started child processes, one of
+        // which first runs unrelated "prelude" simulations and library calls; each task's solo digests must agree between the two
+        if (r.chance(0.25)) { p.setcfg("xproc", 1); int np = r.range(1, 2);
+            for (int k = 0; k < np; ++k) { int integ = r.chance(0.5) ? (int)p.ops[r.below(nt)].num("integ", 3) : (int)r.below(hi::NINTEG); bool low = (integ == 0 || integ == 1 || integ == 5 || integ == 7);
+                p.ops.push_back(vf::mkop("prelude").set("seed", (long)(r.next() >> 16)).set("integ", integ).setr("acc", std::pow(10.0, -r.range(2, low ? 3 : 5))).setr("dt", 0.01).set("steps", r.range(2, 5)).set("stepper", r.chance(0.4) ? 1 : 0).set("mesh", 0).set("cons", 0).set("contact", r.chance(0.5) ? 1 : 0)); }
+            p.ops.push_back(vf::mkop("prenoise").set("kind", (int)r.below(9)).set("seed", (long)(r.next() >> 40))); }
         p.setcfg("perturb0", (int)r.below(256)); p.setcfg("perturb1", (int)r.below(256));
-        p.setcfg("clock_step", (long)r.pick(std::vector<long>{1, 1000, 250000, 40000000})); p.setcfg("clock_jump_at", r.chance(0.5) ? r.range(1, 400) : -1); p.setcfg("clock_jump", (long)r.pick(std::vector<long>{-5000000000L, 3000000, 900000000000L}));
+        p.setcfg("clock_step", (long)r.pick(std::vector<long>{1, 1000, 250000, 40000000})); p.setcfg("clock_jump_at", r.chance(0.5) ? r.range(1, 400) : -1); p.setcfg("clock_jump", (long)r.pick(std::vector<long>{40000000L, 3000000, 900000000000L}));   // forward jumps only: clock() is monotone, and CMA-ES aborts the process on a backward reading
         // schedule: creation order, interleaved stepping, noise, destruction, heap perturbation
         int nsched = r.range(8, tier == "thorough" ? 60 : 36);
         for (int k = 0; k < nsched; ++k) { int w = (int)r.below(100); Op o;
             if (w < 60) o = vf::mkop("step").set("k", (int)r.below(nt)).set("n", r.range(1, 3));
-            else if (w < 75) o = vf::mkop("noise").set("kind", (int)r.below(8)).set("seed", (long)(r.next() >> 40));
+            else if (w < 75) o = vf::mkop("noise").set("kind", (int)r.below(9)).set("seed", (long)(r.next() >> 40));
             else if (w < 83) o = vf::mkop("alloc").set("n", r.range(1, 40)).set("size", r.range(8, 4000));
             else if (w < 88) o = vf::mkop("perturb").set("b", (int)r.below(256));
             else if (w < 94) o = vf::mkop("destroy").set("k", (int)r.below(nt));
@@ -208,14 +243,52 @@ struct C46 : vf::Engine {
             p.ops.push_back(o); }
         // re-entrant switches (these are the "faults" of the schedule space: always present), callback failures only in the fault batch
         int nr = r.range(1, 5);
-        for (int i = 0; i < nr; ++i) { Op f = vf::mkop("reent").set("host", (int)r.below(nt)).set("site", r.chance(0.7) ? 0 : (int)r.below(3)).set("at", 0).set("what", r.chance(0.65) ? 0 : 1).set("j", (int)r.below(nt)).set("n", r.range(1, 2)).set("kind", (int)r.below(8)).set("seed", (long)(r.next() >> 40)); f.set("at", f.num("site", 0) != 0 ? r.range(1, 4) : r.chance(0.5) ? r.range(1, 30) : r.range(1, 400)); p.faults.push_back(f); }
+        for (int i = 0; i < nr; ++i) { Op f = vf::mkop("reent").set("host", (int)r.below(nt)).set("site", r.chance(0.7) ? 0 : (int)r.below(3)).set("at", 0).set("what", r.chance(0.65) ? 0 : 1).set("j", (int)r.below(nt)).set("n", r.range(1, 2)).set("kind", (int)r.below(9)).set("seed", (long)(r.next() >> 40)); f.set("at", f.num("site", 0) != 0 ? r.range(1, 4) : r.chance(0.5) ? r.range(1, 30) : r.range(1, 400)); p.faults.push_back(f); }
         if (faults) { int nf = r.range(1, 2); for (int i = 0; i < nf; ++i) p.faults.push_back(vf::mkop("throw").set("host", (int)r.below(nt)).set("site", r.chance(0.7) ? 0 : 1).set("at", r.range(1, 300))); }
         return p;
     }
 
-    Result execute(const Plan& p) override {
+    static Recipe recipeOf(const Op& op) { Recipe rc; rc.seed = (uint64_t)op.num("seed", 1); rc.integ = (int)(op.num("integ", 3) % hi::NINTEG); rc.accuracy = std::min(0.1, std::max(1e-7, op.real("acc", 1e-3))); rc.dt = std::max(1e-3, op.real("dt", 0.01)); rc.nsteps = (int)std::max(1L, std::min(40L, op.num("steps", 5))); rc.stepper = op.num("stepper", 0) != 0; rc.mesh = op.num("mesh", 0) != 0; rc.cons = op.num("cons", 0) != 0; rc.contact = (int)op.num("contact", 0) % 2; return rc; }
+
+    // ---- fresh-process comparison: run the plan in two newly started processes (with and without the prelude) and compare
+    struct ChildOut { bool ok = false; Result res; std::map<std::pair<int, int>, uint64_t> solo; std::string raw; };
+    static ChildOut runChild(const std::string& planFile, int prelude) {
+        ChildOut o; char exe[4096]; ssize_t n = readlink("/proc/self/exe", exe, sizeof exe - 1); if (n <= 0) return o; exe[n] = 0;
+        std::string cmd = std::string(exe) + " child --file " + planFile + " --prelude " + std::to_string(prelude) + " 2>/dev/null";
+        FILE* f = popen(cmd.c_str(), "r"); if (!f) return o; char buf[4096];
+        while (fgets(buf, sizeof buf, f)) { std::string ln(buf); o.raw += ln;
+            if (ln.rfind("D ", 0) == 0) { int k, i; unsigned long long d; if (std::sscanf(ln.c_str(), "D %d %d %llu", &k, &i, &d) == 3) o.solo[{k, i}] = d; }
+            else if (ln.rfind("C ", 0) == 0) { char nm[200]; long v; if (std::sscanf(ln.c_str(), "C %199s %ld", nm, &v) == 2) o.res.counters[nm] += v; }
+            else if (ln.rfind("REPLAY ", 0) == 0) { o.ok = true; char st[32], cls[200]; if (std::sscanf(ln.c_str(), "REPLAY st=%31s cls=%199s", st, cls) == 2 && std::string(st) == "viol") { o.res.violation = true; o.res.vclass = cls; size_t a = ln.find("sig="), b = ln.find(" | "); if (a != std::string::npos && b != std::string::npos) { o.res.signature = ln.substr(a + 4, b - a - 4); o.res.detail = ln.substr(b + 3); while (!o.res.detail.empty() && o.res.detail.back() == '\n') o.res.detail.pop_back(); } } }
+        }
+        pclose(f); return o;
+    }
+    Result executeAcrossProcesses(const Plan& p) {
+        Result res; char tmpl[] = "/tmp/c46-xproc-XXXXXX"; int fd = mkstemp(tmpl); if (fd < 0) { res.inconclusive = true; res.detail = "cannot create a temporary plan file"; return res; }
+        { Plan q = p; q.setcfg("xproc", 0); std::string s = q.text(); if (write(fd, s.data(), s.size()) < 0) {} close(fd); }
+        ChildOut a = runChild(tmpl, 0), b = runChild(tmpl, 1); unlink(tmpl);
+        vf::Hash h; for (auto& kv : a.solo) { h.mix(kv.first.first); h.mix(kv.first.second); h.mix(kv.second); } res.hash = h.h; res.key = h.h ^ 0x5851f42d4c957f2dULL;
+        if (!a.ok || !b.ok) { res.fail("harness-child-failed", "child", "a child process of the fresh-process comparison produced no result: " + vf::sanitize((a.ok ? b.raw : a.raw).substr(0, 300))); return res; }
+        res.counters = b.res.counters; res.count("xproc_runs"); res.count("probe_prelude_before_fresh_start");
+        for (auto& kv : res.counters) if (kv.first == "task_steps") res.simtime = (double)kv.second;
+        if (a.res.violation) { res = a.res; res.hash = h.h; return res; }
+        if (b.res.violation) { Result r = b.res; r.hash = h.h; r.counters = res.counters; return r; }
+        long cmp = 0;
+        for (auto& kv : a.solo) { auto it = b.solo.find(kv.first); if (it == b.solo.end()) continue; ++cmp;
+            if (it->second != kv.second) { std::vector<Recipe> rcs; for (auto& op : p.ops) if (op.kind == "task") rcs.push_back(recipeOf(op)); const Recipe& rc = rcs[kv.first.first % rcs.size()];
+                res.fail("trajectory-depends-on-process-history", std::string("integrator=") + hi::IntegNames[rc.integ] + (rc.contact ? " contact=general" : " contact=compliant"), "task " + std::to_string(kv.first.first) + " (" + hi::IntegNames[rc.integ] + "): returned state #" + std::to_string(kv.first.second) + " of the task run alone differs between a freshly started process and a freshly started process that first ran unrelated simulations and library calls"); break; } }
+        res.count("states_compared_across_processes", cmp); res.nontrivial = cmp >= 4;
+        return res;
+    }
+
+    Result execute(const Plan& p) override { if (p.cfgn("xproc", 0)) return executeAcrossProcesses(p); return executeInProcess(p, false, nullptr); }
+
+    Result executeInProcess(const Plan& p, bool prelude, std::vector<std::vector<uint64_t>>* soloOut) {
         Result res; vf::Hash key, hash; Sched S; S.plan = &p; S.res = &res; S.key = &key; g_sched = &S;
-        for (auto& op : p.ops) if (op.kind == "task") { Recipe rc; rc.seed = (uint64_t)op.num("seed", 1); rc.integ = (int)(op.num("integ", 3) % hi::NINTEG); rc.accuracy = std::min(0.1, std::max(1e-7, op.real("acc", 1e-3))); rc.dt = std::max(1e-3, op.real("dt", 0.01)); rc.nsteps = (int)std::max(1L, std::min(40L, op.num("steps", 5))); rc.stepper = op.num("stepper", 0) != 0; rc.mesh = op.num("mesh", 0) != 0; rc.cons = op.num("cons", 0) != 0; S.recipes.push_back(rc); }
+        if (prelude) {   // unrelated work at the very start of the process; nothing below may depend on it
+            for (auto& op : p.ops) { try { if (op.kind == "prelude") { Recipe rc = recipeOf(op); SimTask t(90, rc); for (int i = 0; i < rc.nsteps; ++i) t.step(); } else if (op.kind == "prenoise") noise((int)op.num("kind", 0), (uint64_t)op.num("seed", 1)); } catch (const std::exception&) {} }
+        }
+        for (auto& op : p.ops) if (op.kind == "task") S.recipes.push_back(recipeOf(op));
         if (S.recipes.empty()) { res.inconclusive = true; res.detail = "no tasks"; g_sched = nullptr; return res; }
         const int nt = (int)S.recipes.size();
         // ---------------- phase 1: every task alone, from a fresh start (the reference)
@@ -226,11 +299,12 @@ struct C46 : vf::Engine {
             try { SimTask t(k, S.recipes[k]); for (int i = 0; i < S.recipes[k].nsteps; ++i) t.step(); ref[k] = t.digest; }
             catch (const std::exception& e) { refOk[k] = 0; res.count("tasks_failing_alone"); if (getenv("VERIF_DEBUG")) std::fprintf(stderr, "task %d fails alone: %s\n", k, e.what()); }     // a simulation that fails on its own says nothing about isolation
         }
+        if (soloOut) *soloOut = ref;
         for (auto& op : p.ops) if (op.kind == "noise") S.checkNoise((int)op.num("kind", 0), (uint64_t)op.num("seed", 1), noise((int)op.num("kind", 0), (uint64_t)op.num("seed", 1)), "alone");
         for (auto& f : p.faults) if (f.kind == "reent" && f.num("what", 0) != 0) S.checkNoise((int)f.num("kind", 0), (uint64_t)f.num("seed", 1), noise((int)f.num("kind", 0), (uint64_t)f.num("seed", 1)), "alone");
         // ---------------- phase 2: the same tasks under the seeded schedule, on a different heap pattern and a different (skewed, jumping) clock
         mallopt(M_PERTURB, (int)p.cfgn("perturb1", 0));
-        g_clockStep = std::max(1L, p.cfgn("clock_step", 1000)); g_clockJumpAt = g_clockReads + p.cfgn("clock_jump_at", -1); g_clockJump = p.cfgn("clock_jump", 0); if (p.cfgn("clock_jump_at", -1) < 0) g_clockJumpAt = -1;
+        g_clockStep = std::max(1L, p.cfgn("clock_step", 1000)); g_clockJumpAt = g_clockReads + p.cfgn("clock_jump_at", -1); g_clockJump = std::max(0L, p.cfgn("clock_jump", 0)); if (p.cfgn("clock_jump_at", -1) < 0) g_clockJumpAt = -1;
         S.tasks.resize(nt); S.enabled = true; std::vector<std::unique_ptr<char[]>> junk; long steps = 0, destroyedMid = 0, compared = 0; std::set<int> everCreated;
         auto compare = [&](int k) {
             if (!S.tasks[k] || !refOk[k]) return; const std::vector<uint64_t>& d = S.tasks[k]->digest; size_t n = d.size();
@@ -257,7 +331,7 @@ struct C46 : vf::Engine {
         try {
             for (auto& op : p.ops) {
                 if (res.violation) break;
-                if (op.kind == "task") continue;
+                if (op.kind == "task" || op.kind == "prelude" || op.kind == "prenoise") continue;
                 if (op.kind == "step") stepTask((int)op.num("k", 0) % nt, (int)std::max(1L, op.num("n", 1)));
                 else if (op.kind == "create") create((int)op.num("k", 0) % nt);
                 else if (op.kind == "destroy") { int k = (int)op.num("k", 0) % nt; if (S.tasks[k]) { compare(k); bool mid = S.tasks[k]->done < S.recipes[k].nsteps; S.tasks[k].reset(); if (mid) res.count("probe_task_destroyed_while_others_continue"); } }
@@ -279,4 +353,17 @@ struct C46 : vf::Engine {
     }
 };
 
-int main(int argc, char** argv) { C46 e; return vf::engineMain(argc, argv, e); }
+int main(int argc, char** argv) {
+    C46 e;
+    if (argc > 1 && std::string(argv[1]) == "child") {     // one half of a fresh-process comparison
+        if (!getenv("OPENBLAS_NUM_THREADS")) { setenv("OPENBLAS_NUM_THREADS", "1", 1); execv("/proc/self/exe", argv); }
+        std::string file; int prelude = 0; for (int i = 2; i + 1 < argc; i += 2) { if (std::string(argv[i]) == "--file") file = argv[i + 1]; if (std::string(argv[i]) == "--prelude") prelude = std::atoi(argv[i + 1]); }
+        std::ifstream f(file); Plan p; if (!f || !Plan::parse(f, p)) return 2;
+        std::vector<std::vector<uint64_t>> solo; Result r = e.executeInProcess(p, prelude != 0, &solo);
+        for (size_t k = 0; k < solo.size(); ++k) for (size_t i = 0; i < solo[k].size(); ++i) std::printf("D %zu %zu %llu\n", k, i, (unsigned long long)solo[k][i]);
+        for (auto& kv : r.counters) std::printf("C %s %ld\n", kv.first.c_str(), kv.second);
+        std::printf("REPLAY st=%s cls=%s hash=0 sig=%s | %s\n", r.violation ? "viol" : "ok", r.violation ? r.vclass.c_str() : "-", r.violation ? vf::sanitize(r.signature).c_str() : "-", vf::sanitize(r.detail).c_str());
+        return 0;
+    }
+    return vf::engineMain(argc, argv, e);
+}
